@@ -51,6 +51,10 @@ def _arr(a):
     a = np.asarray(a)
     if a.dtype == object:
         return [dump(x) for x in a.tolist()]
+    if a.dtype.kind in "fc" and not np.all(np.isfinite(a)):
+        # NaN != NaN would make every snapshot differ from itself: use sentinels
+        a = np.where(np.isnan(a), 9.99e99, a)
+        a = np.where(np.isinf(a), 8.88e99, a)
     if np.iscomplexobj(a):
         return ["c", list(a.shape), np.round(a.real, 9).ravel().tolist(), np.round(a.imag, 9).ravel().tolist()]
     return ["a", list(a.shape), (np.round(a.astype(float), 9) + 0.0).ravel().tolist()]
@@ -72,11 +76,15 @@ def sample_fn(tlist, coeff, spline_kind, T):
     if tl.ndim == 0:
         tl = np.array([0.0, float(tl)])
     out = []
+    if not (np.all(np.isfinite(tl)) and np.all(np.isfinite(co))):
+        return ["irregular", _arr(tl), _arr(co)]      # degenerate pulse (e.g. zero duration): compared as stored
+    sp = None
     if spline_kind == "cubic" and len(co) == len(tl) and len(tl) >= 2:
         from scipy.interpolate import CubicSpline
-        sp = CubicSpline(tl, co)
-    else:
-        sp = None
+        try:
+            sp = CubicSpline(tl, co)
+        except ValueError:
+            return ["irregular", _arr(tl), _arr(co)]
     for f in SAMPLE_FRACS:
         t = f * T
         if t < tl[0] or t > tl[-1]:
@@ -108,7 +116,7 @@ def pulses_T(pulses):
     T = 0.0
     for p in pulses:
         tl = getattr(p, "tlist", None)
-        if tl is not None and np.ndim(tl) > 0 and len(tl):
+        if tl is not None and np.ndim(tl) > 0 and len(tl) and np.isfinite(np.asarray(tl, dtype=float)[-1]):
             T = max(T, float(np.asarray(tl)[-1]))
     return T or 1.0
 
@@ -450,7 +458,8 @@ def do_call(W, call):
         if call.get("sm", "ASAP") != "ASAP":
             kw["schedule_mode"] = call["sm"]
         res = proc.load_circuit(qc, **kw)
-        return [res, getattr(proc, "global_phase", None)]
+        # ... and what the processor holds afterwards (pulses as functions of time, phase, noise)
+        return [res, getattr(proc, "global_phase", None), ["held", proc_state(proc)]]
     if op == "qobjevo":
         return W.proc(call["proc"]).get_qobjevo(noisy=call.get("noisy", False))
     if op == "noisy_pulses":
@@ -962,7 +971,23 @@ def gen_qasm_circ(rng, N, n):
     return dict(N=N, ncb=2, gates=gs, kind="qasm")
 
 
-CIRC_U, CIRC_M, CIRC_N, CIRC_2, CIRC_L, CIRC_Q = 0, 1, 2, 3, 4, 5
+def gen_quiet_circ(rng, N):
+    """a circuit that drives no pulse (empty / GLOBALPHASE only) or an identity-like one (zero-angle rotations)"""
+    k = rng.choice(["empty", "phase", "phase", "phase2", "zero", "idle"])
+    if k == "empty":
+        gs = []
+    elif k == "phase":
+        gs = [G("GLOBALPHASE", a=rng.choice([0.25, 0.5, 1.0]))]
+    elif k == "phase2":
+        gs = [G("GLOBALPHASE", a=0.25), G("GLOBALPHASE", a=0.5)]
+    elif k == "zero":
+        gs = [G(rng.choice(["RX", "RZ"]), [rng.randrange(N)], a=0.0) for _ in range(rng.randint(1, 2))]
+    else:
+        gs = [G("GLOBALPHASE", a=0.5), G("RZ", [rng.randrange(N)], a=0.0)]
+    return dict(N=N, ncb=0, gates=gs, kind="quiet")
+
+
+CIRC_U, CIRC_M, CIRC_N, CIRC_2, CIRC_L, CIRC_Q, CIRC_E = 0, 1, 2, 3, 4, 5, 6
 
 
 def gen_world(rng, procs_ok=True):
@@ -970,7 +995,7 @@ def gen_world(rng, procs_ok=True):
     ncb = 2
     circs = [gen_unitary_circ(rng, N, rng.randint(1, 5)), gen_meas_circ(rng, N, rng.randint(2, 5), ncb),
              gen_native_circ(rng, N, rng.randint(1, 5)), gen_2q_circ(rng, N, rng.randint(1, 3)),
-             gen_listarg_circ(rng, N, rng.randint(1, 3)), gen_qasm_circ(rng, N, rng.randint(1, 5))]
+             gen_listarg_circ(rng, N, rng.randint(1, 3)), gen_qasm_circ(rng, N, rng.randint(1, 5)), gen_quiet_circ(rng, N)]
     cbits = [[rng.randint(0, 1) for _ in range(ncb)], [rng.randint(0, 1) for _ in range(ncb)], [1], []]
     sims = [dict(circ=CIRC_M), dict(circ=CIRC_M, dm=True), dict(circ=CIRC_U)]
     procs = [dict(kind="linear", N=N), dict(kind="circular", N=N, t1=50.0, t2=30.0), dict(kind="cqed", N=N),
@@ -1037,7 +1062,7 @@ def gen_call(rng, inp, family):
             comp = 0
         if kind == "cqed" and r() < 0.5:
             comp = 1
-        return dict(op=op, proc=p, circ=rng.choice([CIRC_U, CIRC_N, CIRC_U, CIRC_N, CIRC_2]), comp=comp, sm=rng.choice(["ASAP", "ASAP", "ALAP", None]))
+        return dict(op=op, proc=p, circ=rng.choice([CIRC_U, CIRC_N, CIRC_U, CIRC_N, CIRC_2, CIRC_E, CIRC_E]), comp=comp, sm=rng.choice(["ASAP", "ASAP", "ALAP", None]))
     if op == "qobjevo":
         return dict(op=op, proc=p, noisy=r() < 0.6)
     if op == "noisy_pulses":
@@ -1058,6 +1083,19 @@ def gen_history(rng, maxlen=8, family=None):
     if family in ("proc",):
         calls.append(dict(op="load", proc=inp["_procs"][0], circ=rng.choice([CIRC_U, CIRC_N]),
                           comp=(0 if inp["procs"][inp["_procs"][0]]["kind"] == "linear" and rng.random() < 0.5 else None), sm="ASAP"))
+    if family == "proc" and rng.random() < 0.6:
+        # reuse of the processor for a circuit that drives no pulse, then inspection of what it holds
+        p0 = inp["_procs"][0]
+        kind0 = inp["procs"][p0]["kind"]
+        if rng.random() < 0.3:
+            calls.append(dict(op="load", proc=p0, circ=rng.choice([CIRC_U, CIRC_N]), comp=None, sm=rng.choice(["ASAP", "ALAP"])))
+        calls.append(dict(op="load", proc=p0, circ=CIRC_E, comp=(0 if kind0 == "linear" and rng.random() < 0.3 else None), sm="ASAP"))
+        q = rng.choice(["run_analytically", "proc_pulses", "qobjevo", "noisy_pulses"])
+        if q == "run_analytically" and kind0 == "sc":
+            q = "proc_pulses"
+        calls.append(dict(op="qobjevo", proc=p0, noisy=rng.random() < 0.5) if q == "qobjevo" else
+                     dict(op="noisy_pulses", proc=p0, dn=True, drift=False) if q == "noisy_pulses" else dict(op=q, proc=p0))
+        n = max(n, len(calls))
     while len(calls) < n:
         fam = family if family != "mixed" else rng.choice(["sim", "pass", "sched", "proc"])
         c = gen_call(rng, inp, fam)
@@ -1200,10 +1238,14 @@ def targeted_histories():
     cn = dict(N=3, ncb=0, kind="native", gates=[G("RX", [0], a=0.5), G("GLOBALPHASE", a=0.25), G("RZ", [2], a=0.25), G("ISWAP", [2, 1]), G("SQRTISWAP", [0, 1])])
     c2 = dict(N=3, ncb=0, kind="2q", gates=[G("CNOT", [2], [0]), G("ISWAP", [2, 0]), G("SWAP", [2, 0])])
     cl = dict(N=3, ncb=0, kind="listarg", gates=[G("R", [1], a=[0.25, 0.5]), G("CNOT", [1], [0]), G("SWAP", [1, 0])])
-    base = dict(circs=[cu, cm, cn, c2, cl], cbits=[[0, 0], [1, 0], [1], []],
+    cq = dict(N=3, ncb=2, kind="qasm", gates=[G("X", [0]), G("CNOT", [1], [0]), {"M": 0, "store": 0}])
+    ce = dict(N=3, ncb=0, kind="quiet", gates=[G("GLOBALPHASE", a=0.25)])
+    cz = dict(N=3, ncb=0, kind="quiet", gates=[])
+    c0 = dict(N=3, ncb=0, kind="quiet", gates=[G("RX", [0], a=0.0), G("RZ", [1], a=0.0)])
+    base = dict(circs=[cu, cm, cn, c2, cl, cq, ce, cz, c0], cbits=[[0, 0], [1, 0], [1], []],
                 sims=[dict(circ=1), dict(circ=1, dm=True), dict(circ=0)],
                 procs=[dict(kind="linear", N=3), dict(kind="circular", N=3, t1=50.0, t2=30.0), dict(kind="cqed", N=3),
-                       dict(kind="linear", N=3, noise=[dict(kind="relax", t1=40.0, t2=20.0), dict(kind="amp")]), dict(kind="sc", N=2)],
+                       dict(kind="linear", N=3, noise=[dict(kind="relax", t1=40.0, t2=20.0), dict(kind="amp")]), dict(kind="sc", N=3)],
                 comps=[dict(kind="spinchain", N=3), dict(kind="cqed", N=3)])
 
     def H(fam, *calls):
@@ -1234,6 +1276,15 @@ def targeted_histories():
         H("proc", dict(op="load", proc=3, circ=0), dict(op="noisy_pulses", proc=3, dn=True), dict(op="noisy_pulses", proc=3, dn=True), dict(op="qobjevo", proc=3, noisy=True),
           dict(op="qobjevo", proc=3, noisy=True), dict(op="noisy_pulses", proc=3), dict(op="proc_pulses", proc=3), dict(op="qobjevo", proc=3)),
         H("proc", dict(op="load", proc=4, circ=3), dict(op="qobjevo", proc=4, noisy=True), dict(op="qobjevo", proc=4, noisy=True), dict(op="proc_pulses", proc=4), dict(op="load", proc=4, circ=3)),
+    ] + [
+        # a processor reused for a circuit that drives no pulse (GLOBALPHASE only / empty / zero-angle rotations)
+        H("proc", dict(op="load", proc=p, circ=0), dict(op="load", proc=p, circ=6), dict(op=q1, proc=p), dict(op="proc_pulses", proc=p),
+          dict(op="load", proc=p, circ=2), dict(op="load", proc=p, circ=7), dict(op="proc_pulses", proc=p), dict(op="qobjevo", proc=p))
+        for p, q1 in ((0, "run_analytically"), (1, "run_analytically"), (2, "run_analytically"), (3, "run_analytically"), (4, "proc_pulses"))
+    ] + [
+        H("proc", dict(op="load", proc=p, circ=2), dict(op="load", proc=p, circ=8), dict(op="proc_pulses", proc=p), dict(op="load", proc=p, circ=6, **kw),
+          dict(op="load", proc=p, circ=6, **kw), dict(op="proc_pulses", proc=p), dict(op="noisy_pulses", proc=p, dn=True))
+        for p, kw in ((0, dict(comp=0)), (1, {}), (2, dict(comp=1)), (4, {}))
     ]
 
 
